@@ -30,6 +30,7 @@ NEW, RUNNABLE, SLEEPING, BLOCKED, DONE = "new", "runnable", "sleeping", "blocked
 class Actor:
     def __init__(self, idx, name, fn):
         self.idx, self.name, self.fn = idx, name, fn
+        self.sched = None
         self.state = NEW
         self.go = threading.Event()
         self.thread = None
@@ -66,11 +67,14 @@ class Scheduler:
     # ------------------------------------------------------------ setup
     def add(self, name, fn):
         a = Actor(len(self.actors), name, fn)
+        a.sched = self
         self.actors.append(a)
         return a
 
     def me(self):
-        return self.by_thread.get(threading.get_ident())
+        # keyed by the thread OBJECT: thread idents are re-used (a thread-pool worker may get a finished actor's ident)
+        a = getattr(threading.current_thread(), "_vf_actor", None)
+        return a if a is not None and a.sched is self and a.state != DONE else None
 
     # ------------------------------------------------------------ called from actor threads
     def _park(self, a):
@@ -124,7 +128,7 @@ class Scheduler:
         return out
 
     def _body(self, a):
-        self.by_thread[threading.get_ident()] = a
+        threading.current_thread()._vf_actor = a
         a.go.wait()
         a.go.clear()
         try:
